@@ -59,6 +59,7 @@ class Driver:
         self.split_inside_frame = 0
         self.eof_reads = 0
         self.announced_sync = None
+        self.plan = None
         self.last_boundary = 0
         self.chunk_inside_utf8 = 0
         self.pipelined_pairs = 0
@@ -68,6 +69,8 @@ class Driver:
     # ---- inbound side -------------------------------------------------
     def next_bytes(self, maxn: int) -> bytes:
         self.on_idle()
+        if not self.pending and self.plan is not None and self.handled_ops:
+            sim.late_races(self.plan, self.world, self.handled_ops[-1])
         while not self.pending:
             if self.eof or self.pos >= len(self.ops):
                 self.eof_reads += 1
@@ -364,6 +367,7 @@ def run_schedule(sched: dict, fallback_base: str, repo: str, result_cb) -> None:
         writer = sim.SimWriter()
         driver = Driver(sched, world, writer)
         raw = sim.SimRaw(driver)
+        driver.plan = plan
         ctx.update(world=world, seams=seams, writer=writer, driver=driver, net=net, plan=plan)
         from . import oracles as _or
 
